@@ -160,6 +160,7 @@ def history_case(case, acc):
         try:
             child = ScriptedSpawn(Cursor(case['script'], conv, 2000), clock, timeout=30, encoding=enc)
             out = []
+            kept = {}
             for ic, src, form in case['calls']:
                 child.ignorecase = ic
                 fl = re.DOTALL | (re.IGNORECASE if ic else 0)
@@ -169,6 +170,9 @@ def history_case(case, acc):
                         idx = child.expect([pat, TIMEOUT], timeout=0)
                     elif form == 'str':
                         idx = child.expect([conv(src), TIMEOUT], timeout=0)
+                    elif form == 'kept':
+                        # the caller wrote the list once and passes the same object every time
+                        idx = child.expect(kept.setdefault(src, [conv(src), TIMEOUT]), timeout=0)
                     elif form == 'single':
                         idx = child.expect(conv(src), timeout=0)
                     elif form == 'cpl':
@@ -202,7 +206,7 @@ def gen_history(rng):
     script = [['d', p] for p in rand_cuts(rng, text, 3)]
     calls = []
     for _ in range(rng.randint(2, 6)):
-        calls.append([rng.random() < 0.5, rng.choice(srcs), rng.choice(['str', 'single', 'cpl', 'ascii'])])
+        calls.append([rng.random() < 0.5, rng.choice(srcs), rng.choice(['str', 'single', 'cpl', 'ascii', 'kept', 'kept'])])
     return {'history': True, 'enc': rng.choice([None, 'utf-8']), 'script': script, 'calls': calls}
 
 
